@@ -10,8 +10,7 @@ independent of the limb type.  The model runs on limb lists (`Cnl.Wide`), the or
 
     storage <ty>                         => multi:<w>:<n>:<s|u> | builtin:<ity>
     bin <op> <ty> <a> <b>                => <ty>:<hex>          op ∈ add sub mul div mod and or xor
-                                            (`mul` with ≥ 129 limbs runs the transcribed Karatsuba routine; on
-                                            `karaDefect` limb counts the result is echoed, class C10.karatsuba_odd_split)
+                                            (`mul` with ≥ 129 limbs runs the transcribed Karatsuba routine)
     cmp <op> <ty> <a> <b>                => 0|1
     sh <shl|shr> <ty> <i32|u32> <a> <k>  => <ty>:<hex>
     un <neg|preinc|predec|postinc|postdec> <ty> <a> => <ty>:<hex>[/<hex after>]
@@ -75,23 +74,17 @@ def checkC10 (toks : List String) (res : String) : Option Verdict :=
     let op ← parseBinOp op; let ty ← parseTy tys; let (f, _) ← wdFmt ty
     let pa ← parseHex a; let pb ← parseHex b
     let la := ofNat f.w f.n pa; let lb := ofNat f.w f.n pb
-    -- `*` through a Karatsuba odd split reads limbs of its uninitialised local arrays: the result is not a
-    -- function of the operands, so the model cannot name it — the implementation's (well-formed) result is echoed
-    -- and only the exact-arithmetic oracle judges it (class `C10.karatsuba_odd_split`); every other
-    -- instantiation, Karatsuba or not, is compared with the transcription limb for limb
-    let indeterminate := op == .mul && karaDefect f.n
-    let wellFormed := res.startsWith (ty.toString ++ ":x") && res.length == ty.toString.length + 2 + f.N / 4
-    let m := if indeterminate && wellFormed then res else showRes (showW ty f) (binOp f op la lb)
+    let m := showRes (showW ty f) (binOp f op la lb)
     let x := patToInt f.N f.signed pa; let y := patToInt f.N f.signed pb
     let want := (WideSpec.specBin f.N f.signed op x y).map (showP ty f.N)
     let label := match op with
       | .div => (match opDiv f la lb with | some o => "div/" ++ divLabel o | none => "div/diverges")
       | .mod => (match opMod f la lb with | some o => "mod/" ++ divLabel o | none => "mod/diverges")
-      | .mul => if f.n = 4 then "mul/4limb" else if indeterminate then "mul/karatsuba-odd-split(indeterminate,echoed)"
-                else if f.n ≥ karaThreshold then "mul/karatsuba" else "mul/schoolbook"
+      | .mul => if f.n = 4 then "mul/4limb"
+                else if f.n ≥ karaThreshold then (if karaOddSplit f.n then "mul/karatsuba(odd-level-schoolbook)" else "mul/karatsuba")
+                else "mul/schoolbook"
       | _ => toks[1]!
-    some { model := m, spec := want.map (· == res), cls := if indeterminate then "C10.karatsuba_odd_split" else "",
-           branch := label, nontrivial := want.isSome }
+    some { model := m, spec := want.map (· == res), branch := label, nontrivial := want.isSome }
   | ["cmp", op, tys, a, b] => do
     let op ← parseCmpOp op; let ty ← parseTy tys; let (f, _) ← wdFmt ty
     let pa ← parseHex a; let pb ← parseHex b
@@ -158,14 +151,11 @@ def checkC10 (toks : List String) (res : String) : Option Verdict :=
   | ["chars", tys, a] => do
     let ty ← parseTy tys; let (f, _) ← wdFmt ty
     let pa ← parseHex a
-    -- `cnl::to_chars` multiplies (`value - quotient * 10`) but keeps only the low 32 bits of the difference: on
-    -- Karatsuba odd-split widths the low 24 limbs of a product are still exact and independent of the uninitialised
-    -- arrays, so the text is compared with the (zero-filled) transcription like everywhere else
     let m := match toChars f (ofNat f.w f.n pa) with
       | some s => s
       | none => "TIMEOUT"
     let want := WideSpec.decimal (patToInt f.N f.signed pa)
-    some { model := m, spec := some (want == res), branch := if karaDefect f.n then "chars/karatsuba-odd-split" else "chars" }
+    some { model := m, spec := some (want == res), branch := "chars" }
   | _ => none
 
 end Cnl.Drv
